@@ -1,6 +1,7 @@
 package renderb
 
 import (
+	"sort"
 	"encoding/json"
 	"fmt"
 	"io"
@@ -48,6 +49,40 @@ func dbgRender(args []string) {
 					cerr, outs := c30RenderAll(site.Src(dq(p), p), site.Multi, []string{combo})
 					if cerr == nil && outs[0].err != nil {
 						fmt.Printf("%s %q [%s]: %v\n", site.Name, p, combo, outs[0].err)
+					}
+				}
+			}
+		}
+	case "c47err":
+		absent := c47Absent()
+		for _, sk := range []bool{false, true} {
+			for _, p := range c47Positions {
+				if sk && p.Mono {
+					continue
+				}
+				set := map[rune]bool{}
+				for _, ff := range familyFonts(p.Mono, sk) {
+					for _, r := range cmapRunes(ff.f) {
+						if !p.MD || isMDSafe(r) {
+							set[r] = true
+						}
+					}
+				}
+				var rs []rune
+				for r := range set {
+					rs = append(rs, r)
+				}
+				sort.Slice(rs, func(i, j int) bool { return rs[i] < rs[j] })
+				if p.Name == "shape-label" {
+					fmt.Println("family runes", p.Mono, sk, len(rs))
+				}
+				for _, t := range c47Chunks(rs, 44, absent) {
+					var ro d2svg.RenderOpts
+					if sk {
+						ro.Sketch = ptr(true)
+					}
+					if _, _, err := compileLayout(p.Src(dq(t), t), "dagre", &ro); err != nil {
+						fmt.Printf("%s sketch=%v %q: %v\n", p.Name, sk, t, err)
 					}
 				}
 			}
